@@ -201,15 +201,21 @@ class LocalFileStore(Store):
             STU.from_type(type(blob)), codec
         )
         p = os.path.join(self._root, "blobs", key)
+        # The blob and its metadata are written under a temporary name and renamed into place, so that
+        # a reader (or a process restarted after a crash) never observes a partially written file.
+        # The metadata is written last: its presence marks the blob as committed.
+        tmp_p = self._tmp_name(p)
         if isinstance(protocol, CodecProtocol):
-            protocol.serialize_into(blob, GenericLocation(p))
+            protocol.serialize_into(blob, GenericLocation(tmp_p))
         elif isinstance(protocol, FileCodecProtocol):
-            # This is the local file system, we can directly copy the file to its final destination
-            protocol.serialize_into(blob, PurePath(p))
+            # This is the local file system, we can directly write the file next to its final destination
+            protocol.serialize_into(blob, PurePath(tmp_p))
         else:
             raise DDSException(f"Wrong protocol type: {type(protocol)} {protocol}")
+        os.replace(tmp_p, p)
         meta_p = os.path.join(self._root, "blobs", key + ".meta")
-        with open(meta_p, "wb") as f:
+        tmp_meta_p = self._tmp_name(meta_p)
+        with open(tmp_meta_p, "wb") as f:
             f.write(
                 json.dumps(
                     {
@@ -218,11 +224,19 @@ class LocalFileStore(Store):
                     }
                 ).encode("utf-8")
             )
+        os.replace(tmp_meta_p, meta_p)
         _logger.debug(f"Committed new blob in {key}")
 
     def has_blob(self, key: PyHash) -> bool:
+        # A blob is present once its metadata has been written (see store_blob).
         p = os.path.join(self._root, "blobs", key)
-        return os.path.exists(p)
+        meta_p = os.path.join(self._root, "blobs", key + ".meta")
+        return os.path.exists(p) and os.path.exists(meta_p)
+
+    @staticmethod
+    def _tmp_name(p: str) -> str:
+        """A name next to p that is private to this process."""
+        return f"{p}.tmp-{os.getpid()}"
 
     def _path_location(self, path: DDSPath) -> str:
         """
